@@ -515,6 +515,8 @@ def main():
     def aggv(name, v):
         return f'(VL {listlit([zlit(x) + "%Z" for x in v])})' if name == 'AggIds' else f'(VZ {zlit(int(v))})'
 
+    mstat = {'cells': 0, 'collections': 0}
+
     @total('collection')
     def collection_case(n):
         base = [16, 32, 64][n % 3]
@@ -580,6 +582,14 @@ def main():
         hasher = GH.NiemeyerHasher(L, base)
         order = list(coll.geoshapes)
         own = [timed(lambda s=s: sorted(hasher.hash_shape(s))) for s in order]
+        # cells of a multi-shape that two or more of its MEMBERS cover (the shape must still count once there)
+        shared = 0
+        for s, ks in zip(order, own):
+            if isinstance(s, (MultiGeoPoint, MultiGeoLineString, MultiGeoPolygon)):
+                per = [set(timed(lambda m_=m_: hasher.hash_shape(m_))) for m_ in s.geoshapes]
+                shared += sum(1 for c in ks if sum(c in p_ for p_ in per) >= 2)
+        mstat['cells'] += shared
+        mstat['collections'] += bool(shared)
         items = listlit([
             f'(mkitem {s.properties["id"]} {int(s.dt.elapsed.total_seconds()) if s.dt else 0} '
             f'{"(Some " + str(s.properties["entity"]) + "%Z)" if "entity" in s.properties else "None"} {setlit(ks)})'
@@ -587,6 +597,7 @@ def main():
         for name, fn in AGGS:
             r = guarded(lambda: timed(lambda: hasher.hash_collection(coll, agg_fn=fn) if fn else hasher.hash_collection(coll)))
             m = {'k': 'collection', 'agg': name, 'shapes': descs, 'track': isinstance(coll, Track), 'base': base, 'len': L, 'source': source, 'equal_pairs': n_equal,
+                 'cells_covered_by_2+_members_of_one_multi_shape': shared,
                  'out': r[1] if r[0] == 'Ok' else list(r)}
             if r[0] != 'Ok':
                 i = add(f'KCollection {name} {items} []', m)
@@ -597,6 +608,8 @@ def main():
             ck.count('collection:' + name)
             if n_equal:
                 ck.count('collection-with-equal-shapes:' + name)
+            if shared:
+                ck.count('collection-with-cells-covered-by-2+-members-of-one-multi-shape:' + name)
             nontrivial.add((base, L, name, json.dumps(descs, sort_keys=True)))
             # the property: value at c == agg of exactly the collection's shapes -- WITH multiplicity, equal (==)
             # shapes and repeated objects included -- whose own hash set has c, in collection order
@@ -636,6 +649,128 @@ def main():
     n_coll = 48 if thorough else 8
     for n in range(n_coll):
         collection_case(n)
+
+    # ---------------------------------------------------------------- collections holding multi-shapes whose MEMBERS share cells
+    # Mechanism class: the group-by of hash_collection (or an aggregator) fed from a stream of cells that is not the
+    # shape's own hash SET - a per-member / per-part / per-visit generator, a list concatenation of the members' cells,
+    # a cell yielded again when the flood reaches it from another side - so that a shape is filed under one cell once
+    # per member covering it instead of once.  Only visible where two or more members of ONE multi-shape cover a common
+    # cell: points of a MultiGeoPoint in one cell, identical members, crossing / chained / retraced lines of a
+    # MultiGeoLineString, overlapping, nested or merely neighbouring polygons of a MultiGeoPolygon (and, as control,
+    # members with pairwise disjoint cell sets), mixed with single shapes that fall into the same cells, with equal twins
+    # of the multi-shape and with the multi-shape object listed twice (multiplicity that MUST reach agg_fn), in
+    # FeatureCollections and Tracks.  Judged by the law of C12_hash_collection_spec, through the same KCollection case and
+    # the same oracle as every other collection: result[cell] = agg_fn([s for s in shapes if cell in hash_shape(s)]) for
+    # len (default), total_time (the multi-shapes carry dt of positive length), unique_entities and the list of ids.
+    def shared_multi(mode, mk, ox, oy, w, h, base, L):
+        lon, lat, ex, ey = GH._decode_niemeyer(GH._coord_to_niemeyer(Coordinate(ox, oy), L, base), base)
+        inc = lambda: (lon + ex * rng.uniform(-0.85, 0.85), lat + ey * rng.uniform(-0.85, 0.85))    # noqa: E731  a point of that one cell
+        if mk == 'multipoint':
+            pts = [inc() for _ in range(rng.randint(2, 4))]
+            if mode == 'identical':
+                pts = [pts[0]] * rng.randint(2, 3)
+            elif mode == 'disjoint':
+                pts = [(lon + 2 * i * w, lat - 2 * i * h) for i in range(rng.randint(2, 3))]
+            elif rng.random() < 0.5:
+                pts.insert(rng.randrange(len(pts) + 1), (lon + rng.choice([-2, 2]) * w, lat + rng.choice([-1, 0, 1]) * h))   # + one elsewhere
+            return {'kind': mk, 'members': [{'kind': 'point', 'p': p_} for p_ in pts]}
+        if mk == 'multiline':
+            a, b = rng.uniform(0.6, 2.2) * w, rng.uniform(0.6, 2.2) * h
+            if mode == 'identical':
+                ln = [(ox - a, oy - b), (ox + a, oy + b * rng.uniform(-1, 1))]
+                lines = [ln, list(ln)] if rng.random() < 0.5 else [ln, ln[::-1]]
+            elif mode == 'disjoint':
+                lines = [[(ox + 3 * i * w, oy), (ox + 3 * i * w + a / 2, oy + b / 2)] for i in range(2)]
+            else:
+                form = rng.choice(['cross', 'chain', 'same-cell'])
+                if form == 'cross':
+                    lines = [[(ox - a, oy - b), (ox + a, oy + b)], [(ox - a, oy + b), (ox + a, oy - b)]]
+                elif form == 'chain':
+                    p1 = (ox + rng.uniform(-1, 1) * w, oy + rng.uniform(-1, 1) * h)
+                    lines = [[(ox - a, oy - b), p1], [p1, (ox + a, oy - b)], [(ox + a, oy - b), (ox + a, oy + b)]][: rng.randint(2, 3)]
+                else:
+                    lines = [[inc(), inc()] for _ in range(rng.randint(2, 3))]
+            return {'kind': mk, 'members': [{'kind': 'line', 'pts': ln} for ln in lines]}
+        bx = lambda x, y, a, b: {'kind': 'box', 'nw': (x - a, y + b), 'se': (x + a, y - b)}    # noqa: E731
+        a, b = rng.uniform(0.4, 1.6) * w, rng.uniform(0.4, 1.6) * h
+        if mode == 'identical':
+            mem = [bx(ox, oy, a, b)] * 2
+        elif mode == 'disjoint':
+            mem = [bx(ox + 3 * i * w, oy, 0.4 * w, 0.4 * h) for i in range(2)]
+        else:
+            form = rng.choice(['overlap', 'nested', 'neighbours', 'star'])
+            if form == 'overlap':
+                mem = [bx(ox, oy, a, b), bx(ox + rng.uniform(0.3, 1) * a, oy + rng.uniform(-1, 1) * b, a, b)]
+                if rng.random() < 0.4:
+                    mem.append(bx(ox - rng.uniform(0.3, 1) * a, oy - rng.uniform(0.3, 1) * b, a * 0.7, b * 0.7))
+            elif form == 'nested':
+                mem = [bx(ox, oy, a, b), bx(ox, oy, a * 0.4, b * 0.4)]
+            elif form == 'neighbours':        # geometrically disjoint, in one cell
+                mem = [bx(lon - 0.5 * ex, lat - 0.4 * ey, 0.3 * ex, 0.3 * ey), bx(lon + 0.45 * ex, lat + 0.4 * ey, 0.3 * ex, 0.3 * ey)]
+            else:
+                mem = [{'kind': 'poly', 'pts': star(rng, ox, oy, a, b, rng.randint(4, 7))},
+                       {'kind': 'poly', 'pts': star(rng, ox + 0.5 * a, oy - 0.3 * b, a, b, rng.randint(4, 7))}]
+            rng.shuffle(mem)
+        return {'kind': mk, 'members': mem}
+
+    @total('collection')
+    def multi_collection_case(n):
+        base = [16, 32, 64][n % 3]
+        L = rng.choice(LENGTHS[base][:2])
+        w, h = cell_dims(base, L)
+        cx, cy = rng.uniform(-100, 100), rng.uniform(-50, 50)
+        as_track = (n % 3 == 2)
+        descs = []
+        mks = ['multipoint', 'multiline', 'multipoly']
+        for j in range(rng.randint(1, 3)):
+            mode = 'disjoint' if rng.random() < 0.12 else 'identical' if rng.random() < 0.2 else 'shared'
+            mk = mks[(n + j) % 3] if j == 0 else rng.choice(mks)
+            ox, oy = cx + rng.uniform(-1.5, 1.5) * w, cy + rng.uniform(-1.5, 1.5) * h
+            descs.append(shared_multi(mode, mk, ox, oy, w, h, base, L))
+        for j in range(rng.randint(1, 4)):       # single shapes around (and inside the cells of) the multi-shapes
+            ox, oy = cx + rng.uniform(-2, 2) * w, cy + rng.uniform(-2, 2) * h
+            descs.append(rng.choice([
+                {'kind': 'point', 'p': (ox, oy)},
+                {'kind': 'box', 'nw': (ox - w * rng.uniform(0.3, 2), oy + h * rng.uniform(0.3, 2)), 'se': (ox + w * rng.uniform(0.3, 2), oy - h * rng.uniform(0.3, 2))},
+                {'kind': 'line', 'pts': [(ox, oy), (ox + rng.uniform(-3, 3) * w, oy + rng.uniform(-3, 3) * h)]},
+                {'kind': 'poly', 'pts': star(rng, ox, oy, w * rng.uniform(0.5, 2), h * rng.uniform(0.5, 2), 5)}]))
+        if rng.random() < 0.5:                     # an equal twin of a multi-shape (another object, other properties)
+            descs.append(json.loads(json.dumps(descs[0])))
+        for j, d in enumerate(descs):
+            multi = d['kind'].startswith('multi')
+            if as_track or multi or rng.random() < 0.6:
+                a = rng.randrange(0, 5000) if j else 0
+                d['dt'] = (a, a + (rng.choice([1, 60, 3600, 86399]) if multi else rng.choice([0, 1, 60, 3600])))
+            d['props'] = {'id': j}
+            if rng.random() < 0.8:
+                d['props']['entity'] = rng.choice([3, 5, 8])
+        if descs[-1]['kind'] == descs[0]['kind'] and descs[-1].get('members') == descs[0].get('members'):
+            descs[-1]['dt'] = descs[0]['dt']       # the twin compares equal
+        if rng.random() < 0.3:
+            descs.append({'same_object_as': 0})    # the multi-shape OBJECT twice: here multiplicity 2 is right
+        perm = list(range(len(descs)))
+        rng.shuffle(perm)
+        pos = {old: new for new, old in enumerate(perm)}
+        descs = [dict(descs[old], same_object_as=pos[descs[old]['same_object_as']]) if 'same_object_as' in descs[old] else descs[old]
+                 for old in perm]
+        run_collection(descs, as_track, base, L, 'multi-shapes-whose-members-share-cells')
+
+    # fixed: two points of one MultiGeoPoint in one cell next to a single point there; crossing lines; overlapping boxes
+    MP2 = {'kind': 'multipoint', 'members': [{'kind': 'point', 'p': (12.3, 45.6)}, {'kind': 'point', 'p': (12.31, 45.62)}, {'kind': 'point', 'p': (15.9, 44.1)}], 'dt': (0, 600)}
+    ML2 = {'kind': 'multiline', 'members': [{'kind': 'line', 'pts': [(11.9, 45.1), (13.4, 46.2)]}, {'kind': 'line', 'pts': [(11.9, 46.2), (13.4, 45.1)]}], 'dt': (0, 60)}
+    MB2 = {'kind': 'multipoly', 'members': [{'kind': 'box', 'nw': (12.0, 46.0), 'se': (13.1, 45.2)}, {'kind': 'box', 'nw': (12.6, 45.7), 'se': (13.9, 44.8)}], 'dt': (10, 3610)}
+    for k, (descs, as_track) in enumerate([
+            ([wp(MP2, 0, 3), wp(dict(P, dt=None), 1, 5), wp(ML2, 2, 5), wp(B, 3, 8)], False),
+            ([wp(MB2, 0, 3), wp(P, 1, 3), wp(MB2, 2, 5), {'same_object_as': 0}, wp(ML2, 3)], True),
+            ([wp(MP2, 0), wp(MB2, 1, 8), wp(ML2, 2, 8), wp(Ln, 3, 3)], False)]):
+        for base, L in [((32, 3), (16, 4), (64, 2))[k % 3], (32, 4)]:
+            run_collection(descs, as_track, base, L, 'fixed-multi-shapes-whose-members-share-cells')
+
+    n_mcoll = 72 if thorough else 12
+    for n in range(n_mcoll):
+        multi_collection_case(n)
+    ck.cov['collections_with_a_cell_covered_by_2+_members_of_one_multi_shape'] = mstat['collections']
+    ck.cov['such_(multi-shape, cell)_pairs'] = mstat['cells']
 
     # ---------------------------------------------------------------- hash_coordinates
     @total('coords')
@@ -762,7 +897,9 @@ def main():
                    '16/32/64, away from lon 180 and the poles; for each, the per-cell test is evaluated by the implementation on every '
                    'cell of the vertex bounds enlarged by 2 cells and the returned set is compared with the model flood and with the '
                    'touched set; multi-shapes against the union of their members; FeatureCollections/Tracks with len/total_time/'
-                   'unique_entities/custom agg; hash_coordinates with default and custom agg; _get_surrounding for every in-range '
+                   'unique_entities/custom agg, and collections holding MultiGeoPoint / MultiGeoLineString / MultiGeoPolygon whose members share cells '
+                   '(points in one cell, identical members, crossing / chained lines, overlapping / nested / neighbouring polygons; disjoint as control) '
+                   'mixed with single shapes, equal twins and repeated objects, same four aggregations, same law; hash_coordinates with default and custom agg; _get_surrounding for every in-range '
                    'cell of small depth; hole-free shapes that do not contain their own centroid / bounds centre (U, thin L, chevron polygons in '
                    'all orientations, GeoRing annuli, wedges wider than 180 degrees), fixed and seeded, sized in cells so that the centroid\'s cell '
                    '(usually its 3x3 neighbourhood) is disjoint from the shape; every third shape is hashed a second time on the same hasher after '
